@@ -683,7 +683,9 @@ DoQuiesce(ln) ==
   IN Judge(vConv \cup vFsm \cup vNote \cup vStable, {}) /\ Keep /\ UNCHANGED g
 
 DoAssertLeader(ln) ==   \* the driver kept a majority of the voters answering ln.n all along (family leaseiso)
-  LET V == IF obs[ln.n].up /\ obs[ln.n].role = "L" THEN {} ELSE {<<"C13", "HealthyLeaderDeposed", <<ln.n, obs[ln.n].role, obs[ln.n].term>>>>}
+  \* (ln.term: the term it led when the driver started watching; leading a later term means it was deposed in between)
+  LET V == IF obs[ln.n].up /\ obs[ln.n].role = "L" /\ (Has(ln, "term") => obs[ln.n].term = ln.term) THEN {}
+           ELSE {<<"C13", "HealthyLeaderDeposed", <<ln.n, obs[ln.n].role, obs[ln.n].term>>>>}
   IN Judge(V, {}) /\ Keep /\ UNCHANGED g
 
 DoAssertDone(ln) ==   \* the driver waited ln.bound_us of virtual time on a running server: the call must have been answered
@@ -691,7 +693,13 @@ DoAssertDone(ln) ==   \* the driver waited ln.bound_us of virtual time on a runn
   IN Judge(V, {}) /\ Keep /\ UNCHANGED g
 
 DoStranded(ln) ==
-  Judge({<<"C17", "FutureNeverResolved", <<ln.n, ln.op, ln.kind, ln.inapi, ln.nodeup>>>>}, {}) /\ Keep /\ UNCHANGED g
+  \* C20: a call made on the leader before a Restore that returned nil there was in flight (or queued ahead of it, the
+  \* queues being FIFO): it was committed before the restore or aborted by it, and in both cases answered
+  LET rs == {r \in DOMAIN g.rres : g.rres[r] = "" /\ r \in DOMAIN g.inv /\ g.inv[r].n = ln.n
+                                   /\ ln.op \in DOMAIN g.inv /\ g.inv[ln.op].line < g.inv[r].line}
+      V  == IF ln.kind \in {"apply", "barrier"} /\ ln.nodeup /\ rs # {}
+            THEN {<<"C20", "InflightCallNotAbortedByRestore", <<ln.n, ln.op, ln.kind, rs>>>>} ELSE {}
+  IN Judge({<<"C17", "FutureNeverResolved", <<ln.n, ln.op, ln.kind, ln.inapi, ln.nodeup>>>>} \cup V, {}) /\ Keep /\ UNCHANGED g
 
 DoLeak(ln) ==
   Judge({<<"C17", "GoroutineBlockedForEver", ln.msg>>}, {}) /\ Keep /\ UNCHANGED g
